@@ -99,7 +99,7 @@ func runC15(c *Ctx) {
 		fn := m("StoreLog")
 		v, _ := keyArg(fn, "PutCF", 4)
 		okV := v != nil && v.Has(func(x *Term) bool {
-			return x.Op == "call" && x.Fn != nil && strings.HasPrefix(canonFuncName(x.Fn), "encode") && x.Args[1].IsParam(fn, 1)
+			return x.Op == "call" && x.Fn != nil && strings.HasPrefix(canonFuncName(x.Fn), "encode") && x.Args[1].IsParam(fn, 1) || x.Op == "encoded" && x.Args[0].IsParam(fn, 1)
 		})
 		c.Check(isBE(t, isParamField(fn, 1, "Index")) && okV, "R4", "StoreLog", at.Pos(), "put(BE64(log.Index), encode(log))", "StoreLog puts key "+t.String()+" / value not the encoding of the same entry")
 	} else {
@@ -130,7 +130,7 @@ func runC15(c *Ctx) {
 				why = append(why, "key is "+k.String()+", expected BE64(entry.Index)")
 			}
 			if !v.Has(func(x *Term) bool {
-				return x.Op == "call" && x.Fn != nil && strings.HasPrefix(canonFuncName(x.Fn), "encode") && isElem(x.Args[1])
+				return x.Op == "call" && x.Fn != nil && strings.HasPrefix(canonFuncName(x.Fn), "encode") && isElem(x.Args[1]) || x.Op == "encoded" && isElem(x.Args[0])
 			}) {
 				why = append(why, "value is "+v.String()+", expected the encoding of the same entry")
 			}
